@@ -53,5 +53,11 @@ def collect(h):
     body = h.func_body(rel, r"^func \(ev \*eventType\) regenerateIDs\(", "eventType.regenerateIDs")
     # is the argument's raw->storage plan handed to the CUD pass?  (as written: two independent plans)
     shared = not re.search(r"return ev\.cud\.regenerateIDs\(generator\)", body)
+    # are all explicit (synced) IDs of the event fed to UpdateOnSync before the first pass issues a new ID?
+    i_sync = body.find("UpdateOnSync(")
+    i_arg = body.find("argObject.regenerateIDs(")
+    if i_arg < 0:
+        raise h.Missing(f"{rel}: eventType.regenerateIDs no longer calls argObject.regenerateIDs")
+    items.append(("c04_sync_prepass", "bool", "true" if 0 <= i_sync < i_arg else "false", rel))
     items.append(("c04_plans_shared", "bool", "true" if shared else "false", rel))
     return items
